@@ -826,6 +826,18 @@ fn foreign_one(f: &str, b: &[u8]) -> Option<String> {
                     }
                 }
             }
+            "ppoprf::Client::verify(received pk)" => {
+                // b: a bincode public key as received from a server (possibly with undecodable points)
+                if let Ok(pk) = ppoprf::ppoprf::ServerPublicKey::load_from_bincode(&b) {
+                    let srv = ppoprf::ppoprf::Server::new(vec![0u8, 1, 200]).unwrap();
+                    let (p, _r) = ppoprf::ppoprf::Client::blind(b"x");
+                    for md in [0u8, 1, 200, 7] {
+                        if let Ok(ev) = srv.eval(&p, md, true) {
+                            let _ = ppoprf::ppoprf::Client::verify(&pk, &p, &ev, md);
+                        }
+                    }
+                }
+            }
             "ppoprf::Server::eval+verify" => {
                 // b: 32 bytes blinded point | 32 bytes claimed output
                 if b.len() >= 64 {
@@ -920,6 +932,36 @@ pub fn c09_foreign(case: &Value) -> Result<Option<String>, String> {
             inputs.push(("sta_rs::share_recover(pair)", pair));
             inputs.push(("sta_rs::share_recover", v));
         }
+    }
+    // received public keys whose base point / per-tag points are not valid Ristretto encodings
+    for off in [0usize, 41, 41 + 33, 41 + 66] {
+        if off + 32 <= pk.len() {
+            for fill in [0xffu8, 0x01, 0x80] {
+                let mut m = pk.clone();
+                for i in 0..32 { m[off + i] = fill; }
+                inputs.push(("ppoprf::Client::verify(received pk)", m));
+            }
+        }
+    }
+    inputs.push(("ppoprf::Client::verify(received pk)", pk.clone()));
+    // shares without values (24-byte point only), thresholds 0, 1, 2, 2^32-1: recovery of 1..3 of them
+    for t in [0u32, 1, 2, u32::MAX] {
+        let mut one = Vec::new();
+        one.extend_from_slice(&t.to_le_bytes());
+        let mut x = [0u8; 24];
+        x[0] = 3;
+        sta_rs::store_bytes(&x, &mut one);
+        sta_rs::store_bytes(&[1u8, 2], &mut one);
+        sta_rs::store_bytes(&[3u8], &mut one);
+        one.extend_from_slice(&[0x5au8; 64]);
+        inputs.push(("sta_rs::share_recover", one.clone()));
+        let mut two = one.clone();
+        two[8] = 4;
+        let mut pair = Vec::new();
+        sta_rs::store_bytes(&one, &mut pair);
+        pair.extend_from_slice(&two);
+        inputs.push(("sta_rs::share_recover(pair)", pair));
+        inputs.push(("star_wasm::group_shares(b64)", one));
     }
     // every length prefix of the share set to extreme values
     for off in [4usize, 60, 60 + 4 + 32] {
